@@ -278,6 +278,67 @@ pub fn run(prop: &'static str, tier: &str) -> i32 {
         }
         all.merge(acc);
     }
+    // ---- other objects used earlier on the thread, at an earlier clock reading, must not decide what "creation
+    //      time" means for a builder made afterwards: parses that failed or succeeded (default parser, plain
+    //      parser, generic parser), another builder, a failed build - then, with the clock moved on, a new builder
+    if prop == "C13" {
+        use crate::adapter::{BEvent, BOp, ClaimSpec, Layer, Out, POp};
+        let accs = crate::explore::par_units(&Proto::ALL.to_vec(), |p| {
+            let mut acc = Acc::default();
+            let key = crate::domains::key_pool(*p)[0].clone();
+            let other = crate::domains::key_pool(*p)[1].clone();
+            let seed = if p.is_local() { crate::domains::seeds(*p)[1].clone() } else { vec![] };
+            let t1 = clks[0];
+            let at = |t: i128| crate::adapter::set_clock(Some(time::OffsetDateTime::from_unix_timestamp_nanos(t).unwrap()));
+            let mk = |payload: &str| crate::adapter::core_issue(*p, &key.sk, &seed, payload, None, None).ok().cloned().unwrap_or_default();
+            let expired = mk("{\"exp\":\"2001-01-01T00:00:00Z\"}");
+            let future_nbf = mk("{\"nbf\":\"2999-01-01T00:00:00Z\"}");
+            let fine = mk("{\"exp\":\"2999-01-01T00:00:00Z\",\"nbf\":\"2001-01-01T00:00:00Z\"}");
+            let prior: Vec<(&str, Box<dyn Fn()>)> = vec![
+                ("default parser: expired token rejected", Box::new(|| { let _ = crate::adapter::parse_history(*p, Layer::Prelude, true, &[key.pk.clone()], &[expired.clone()], &[POp::Parse(0, 0)]); })),
+                ("default parser: not-yet-valid token rejected", Box::new(|| { let _ = crate::adapter::parse_history(*p, Layer::Prelude, true, &[key.pk.clone()], &[future_nbf.clone()], &[POp::Parse(0, 0)]); })),
+                ("default parser: wrong key", Box::new(|| { let _ = crate::adapter::parse_history(*p, Layer::Prelude, true, &[other.pk.clone()], &[fine.clone()], &[POp::Parse(0, 0)]); })),
+                ("default parser: junk", Box::new(|| { let _ = crate::adapter::parse_history(*p, Layer::Prelude, true, &[key.pk.clone()], &["x.y.z".to_string()], &[POp::Parse(0, 0)]); })),
+                ("default parser: accepted", Box::new(|| { let _ = crate::adapter::parse_history(*p, Layer::Prelude, true, &[key.pk.clone()], &[fine.clone()], &[POp::Parse(0, 0)]); })),
+                ("default parser: rejected, then accepted", Box::new(|| { let _ = crate::adapter::parse_history(*p, Layer::Prelude, true, &[key.pk.clone()], &[expired.clone(), fine.clone()], &[POp::Parse(0, 0), POp::Parse(1, 0)]); })),
+                ("plain PasetoParser: wrong key", Box::new(|| { let _ = crate::adapter::parse_history(*p, Layer::Prelude, false, &[other.pk.clone()], &[fine.clone()], &[POp::Parse(0, 0)]); })),
+                ("generic parser: wrong key", Box::new(|| { let _ = crate::adapter::parse_history(*p, Layer::Generic, false, &[other.pk.clone()], &[fine.clone()], &[POp::Parse(0, 0)]); })),
+                ("another builder built", Box::new(|| { let _ = crate::adapter::with_rng_script(vec![], || crate::adapter::build_history(*p, Layer::Prelude, &key.sk, &[BOp::Build])); })),
+                ("another builder refused (duplicate)", Box::new(|| { let _ = crate::adapter::with_rng_script(vec![], || crate::adapter::build_history(*p, Layer::Prelude, &key.sk, &[BOp::Claim(ClaimSpec::auto("sub", json!("a"))), BOp::Claim(ClaimSpec::auto("sub", json!("b"))), BOp::Build])); })),
+                ("another builder: build failed in the crypto step", Box::new(|| { let _ = crate::adapter::with_rng_script(vec![], || crate::adapter::build_history(*p, Layer::Prelude, &key.sk, &[BOp::BuildBadKey])); })),
+            ];
+            for (name, f) in &prior {
+                for dt in [1_000_000_000i128, 46 * 86_400 * 1_000_000_000 + 34_200_500_000_000, -(3 * 86_400 * 1_000_000_000i128)] {
+                    at(t1);
+                    f();
+                    let t2 = t1 + dt;
+                    at(t2);
+                    let (ev, _) = crate::adapter::with_rng_script(vec![], || crate::adapter::build_history(*p, Layer::Prelude, &key.sk, &[BOp::Build]));
+                    crate::adapter::freeze_default_clock();
+                    acc.executions += 1;
+                    acc.choice_points += 1;
+                    acc.see(&(p.name(), name, dt));
+                    let payload = match ev.last() {
+                        Some(BEvent::Built(Out::Ok(t))) => crate::adapter::core_present(*p, &key.pk, t, None, None).ok().cloned(),
+                        _ => None,
+                    };
+                    let v: Value = payload.as_deref().and_then(|s| serde_json::from_str(s).ok()).unwrap_or(Value::Null);
+                    let inst = |k: &str| v[k].as_str().and_then(crate::rfc3339::parse).map(|(_, t)| t);
+                    if inst("iat") == Some(t2) && inst("nbf") == Some(t2) && inst("exp") == Some(t2 + 3600 * 1_000_000_000) {
+                        acc.bump("after-other-objects:conforms");
+                    } else {
+                        acc.violate(
+                            format!("C13|{}|after-other-objects|default-claims-not-from-creation-time", p.name()),
+                            format!("[{} at clock t1] then, at clock t2 = t1 {:+} ns, PasetoBuilder::default().build(): payload {} - iat and nbf must be t2 and exp t2 + 1 h", name, dt, v),
+                            json!({"near_miss": ["after-other-objects", p.name(), name]}),
+                        );
+                    }
+                }
+            }
+            acc
+        });
+        all.merge(Acc::merge_all(accs));
+    }
     // ---- pairs of keys that differ by case, white space or Unicode normalisation are different keys
     if prop == "C17" {
         let near: [&str; 9] = ["role", "Role", "ROLE", "role ", " role", "role\n", "r\u{00f4}le", "ro\u{0302}le", "rol"];
